@@ -100,7 +100,9 @@ META = {
             'order; Bcast of an ndarray is a copy',
             'ranks share no memory: pre-emption only at collectives is '
             'faithful',
-            'variances (not stds) are compared, tolerance 1e-9*(var+mean^2); '
+            'variances (not stds) are compared, tolerance 1e-9*(var+max|x|^2) '
+            '(round-off of the streaming update scales with the largest sample, '
+            'whatever its weight); '
             'subsets whose weights are all < 1e-280 are compared for NaN '
             'pattern only (sub-normal round-off)',
             'posterior samples lie in the valid region of the model',
